@@ -473,6 +473,10 @@ class Project(MessageHandler):
             is_implicit_milestone = (start or end) and effort == 0 and duration == 0 and length == 0
 
             if is_explicit_milestone or is_implicit_milestone:
+                # A milestone pinned outside the project time frame is not placed here: it goes
+                # through the normal walk, which reports it as not schedulable
+                if any(d and not (self["start"] <= d <= self["end"]) for d in (start, end)):
+                    continue
                 # Only mark as scheduled if we can set both dates
                 # Milestones with dependencies but no dates need to go through normal scheduling
                 if start and not end:
